@@ -218,10 +218,25 @@ def _get(case, pos):
     return _dec_val(case['cols'][a][0], case['cols'][a][1][b]) if region == 'cell' else case[region][a][b]
 
 
+def build_grown(case):
+    """the same frame as build_frame(case), reached as a FrameGO that held only the first column, had its column cache read,
+    and was then grown column by column (no read in between)"""
+    import static_frame as sf
+    first = dict(case, cols=case['cols'][:1], columns=[lev[:1] for lev in case['columns']])
+    f = build_frame(first, sf.FrameGO)
+    f.columns.values
+    depth = len(case['columns'])
+    for j in range(1, len(case['cols'])):
+        label = case['columns'][0][j] if depth == 1 else tuple(lev[j] for lev in case['columns'])
+        k, v = case['cols'][j]
+        f[label] = _col_array(k, v)
+    return f
+
+
 def delim_eval(case):
     """run one delimited round trip; returns None or (symptom, text)"""
     import static_frame as sf
-    f = build_frame(case)
+    f = build_grown(case) if case.get('grown') else build_frame(case)
     d = case['delim']
     inc_i, inc_c = case.get('inc_i', True), case.get('inc_c', True)
     try:
@@ -587,6 +602,18 @@ def eval_delimited(rep, case):
     nontrivial = len(_specials(case)) > 0 or case['phase'] == 'C'
     rep.count(distinct_key=repr(sorted(case.items())) if nontrivial else None,
               sample=dict(delim=case['delim'], cols=case['cols'], index=case['index'], columns=case['columns']))
+    if r is None and len(case['cols']) >= 2 and not case.get('grown') and (len(repr(case)) % 3 == 0):
+        # the same content reached as a grown FrameGO (stale caches must not show in the file)
+        g_case = dict(case, grown=True)
+        try:
+            rg = delim_eval(g_case)
+        except Exception:
+            rep.error(f'delimited harness (grown) {case}')
+            return
+        rep.count(distinct_key=repr(sorted(g_case.items(), key=str)) if nontrivial else None)
+        if rg is not None:
+            rep.fail(f'C16:delimited:grown-frame-go:{rg[0]}', f'{case.get("via")}/{case["delim"]!r} round trip of a FrameGO grown column by column differs ({rg[0]}): {rg[1]}', dict(case=g_case))
+        return
     if r is not None:
         try:
             # shortcut: if neutralising every special value of an already-keyed singleton class makes the case pass,
